@@ -400,7 +400,15 @@ func fmtTime(sec int64) string { return time.Unix(sec, 0).UTC().Format("2006-01-
 // run a statement on the s3db table and (when kept) on the native twin; report both outcomes
 func (w *l2world) execBoth(c *l2conn, stmt string, args ...interface{}) (string, string) {
 	var nat string
-	_, err := c.db.Exec(strings.ReplaceAll(stmt, "@T", c.table), args...)
+	var err error
+	if catch(func() { _, err = c.db.Exec(strings.ReplaceAll(stmt, "@T", c.table), args...) }) {
+		// a Go panic inside the extension crossed the cgo boundary: in a real host the process
+		// aborts; here SQLite's state is unusable from now on
+		w.dead = true
+		w.lastFailed = true
+		fmt.Fprintf(os.Stderr, "PANIC in statement: %s args=%v\n", stmt, args)
+		return "panic", ""
+	}
 	w.lastFailed = err != nil
 	if w.native && c.native != "" && !(w.fltFired && err != nil) {
 		// (a statement that failed because of an injected storage fault is not run on the twin)
@@ -1468,6 +1476,10 @@ func runL2T(seed int64, n int, dir string) error {
 	defer cw.Flush()
 	defer iw.Flush()
 	total := map[string]int{}
+	// first of all (the process-wide in-memory bucket does not exist yet): connections that use the
+	// default in-memory bucket at the same moment must end up on ONE bucket
+	fmt.Fprintf(cw, "0 probe in-memory-bucket-first-use\n")
+	fmt.Fprintf(iw, "0 %s\n", probeInMemoryBucket())
 	const m = 4
 	id := 0
 	for batch := 0; id < n; batch++ {
